@@ -21,6 +21,7 @@ from typing import Any
 import numpy as np
 from dataclasses import dataclass
 from pb_bss.utils import unsqueeze
+from pb_bss import _verif
 
 from pb_bss.distribution import (
     ComplexAngularCentralGaussian,
@@ -221,6 +222,11 @@ class GCACGMMTrainer:
                 spatial_weight=spatial_weight,
                 spectral_weight=spectral_weight
             )
+            if _verif.ENABLED:
+                _verif.report(
+                    trainer=self, iteration=iteration, model=model,
+                    affiliation=affiliation, quadratic_form=quadratic_form,
+                )
 
         return model
 
